@@ -97,6 +97,9 @@ def classes():
                     import numpy as np
 
                     price, vol = np.float64(price), np.int64(vol)
+                elif tpl.get("as_int") and price >= 1:
+                    price = int(price)   # a whole-number price written as a Python int
+                    taps.hits["limit_price_given_as_python_int"] += 1
                 return [Order(agent_id=self.agent_id, market_id=m.market_id, is_buy=is_buy, kind=LIMIT_ORDER,
                               volume=vol, price=price, ttl=ttl)]
             if a == "both":  # quote both sides of one market: forces self-trades
@@ -594,7 +597,8 @@ def gen_program(rng, style="mixed", hostile=None):
     acts = []
     acts.append([rng.choice([3, 6, 10]), {"a": "limit", "side": "any", "off": [-spread, spread],
                                           "vol": [1, rng.choice([1, 3, 9, 40])], "ttl": ttl,
-                                          "offgrid": rng.choice([0.0, 0.0, 0.3])}])
+                                          "offgrid": rng.choice([0.0, 0.0, 0.3]),
+                                          "as_int": rng.random() < 0.1}])
     if style in ("mixed", "aggressive"):
         acts.append([rng.choice([0, 1, 2]), {"a": "market", "side": "any", "vol": [1, 4], "ttl": ttl}])
         acts.append([rng.choice([0, 1, 3]), {"a": "cancel", "which": rng.choice(["any", "last", "oldest"])}])
@@ -717,6 +721,25 @@ def gen_runner_case(rng, tier, profile="matching", **kw):
         for s in cfg["simulation"]["sessions"]:
             if s.get("maxNormalOrders") == 0 and rng.random() < 0.8:
                 s["maxNormalOrders"] = 3
+    if kw.get("clipped"):
+        # a price limit rule on every market and agents (normal and high-frequency) quoting far outside its band:
+        # many orders are clipped onto the same edge price, where only time priority separates them
+        r = rng.choice([0.01, 0.02, 0.05])
+        cfg["CLIP"] = {"class": "PriceLimitRule", "targetMarkets": list(all_markets), "triggerChangeRate": r}
+        cfg["simulation"]["sessions"][0].setdefault("events", []).append("CLIP")
+        far = [1 - 6 * r, 1 - 2 * r, 1 - r, 1 + r, 1 + 2 * r, 1 + 6 * r]
+        if "H" not in cfg:
+            cfg["H"] = {"class": "ScriptHFTAgent", "numAgents": 2, "markets": list(all_markets), "cashAmount": 50000,
+                        "assetVolume": 20, "program": gen_program(rng, "mixed")}
+            cfg["simulation"]["agents"].append("H")
+        for k, v in cfg.items():
+            if isinstance(v, dict) and "program" in v:
+                v["program"]["actions"].append([8, {"a": "limit", "side": "any", "ref": "p0", "mult": far,
+                                                    "vol": [1, 3], "ttl": [None, 4, 9]}])
+                v["program"]["p_act"] = max(v["program"].get("p_act", 0.5), 0.8)
+        for s in cfg["simulation"]["sessions"]:
+            s["maxHighFrequencyOrders"] = max(s.get("maxHighFrequencyOrders", 1), 2)
+            s["highFrequencySubmitRate"] = 1.0
     return {"drive": "runner", "seed": rng.randrange(1 << 31), "config": cfg, "profile": profile}
 
 
